@@ -2,6 +2,7 @@
 total_control_flow, state_read, access, sync dispatchers, vm exec loop) + the essential-types and
 essential-asm items it uses.  One file, so a caller is checked against the same woven contract its
 callee is proved against."""
+import re
 import os
 from unit import Unit
 from weave import FnSpec as F
@@ -435,6 +436,15 @@ pub open spec fn access_wf(a: Access) -> bool { a.index < a.solutions@.len() }
     oa = u.module('op_access', file='crates/vm/src/op_access.rs', uses='use crate::*;')
     oa.trait('trait OpAccess', [F('op_access', ensures='r == self.spec_op_access(index)', props=('C07', 'C09', 'C14'))],
              extra='    spec fn spec_op_access(&self, index: usize) -> Option<Result<Self::Op, Self::Error>>;')
+    # `&[Op]` (Vm::exec_ops / eval_ops): the element is cloned through an arbitrary `Op: Clone`; its result is an uninterpreted function of the element
+    oa.spec('''pub uninterp spec fn cloned_elem<T>(t: T) -> T;
+''')
+    oa.impl('impl<Op> OpAccess for &[Op] where Op: Clone + Send + Sync,', [
+        ('type', 'Op'), ('type', 'Error'),
+        ('spec', '''    open spec fn spec_op_access(&self, index: usize) -> Option<Result<Self::Op, Self::Error>> {
+        // `index < usize::MAX` is implied by `index < len` (a slice length is a usize); stated because Verus does not bound `self@.len()`
+        if index < self@.len() && index < usize::MAX { Some(Ok(cloned_elem(self@[index as int]))) } else { None } }'''),
+        F('op_access', mode='assumed', note='`.get(i).cloned().map(Ok)` through an arbitrary `Op: Clone`: the clone is an uninterpreted, deterministic function of the element (the trait documents "the same index always returns the same operation"); presence / absence by index is what exec_ops relies on', props=('C05', 'C07', 'C09'))], trait_impl=True)
     # compute children and the checker hand the program on as Arc<T>: it forwards to T
     oa.impl('impl<T> OpAccess for Arc<T> where T: OpAccess,', [
         ('type', 'Op'), ('type', 'Error'),
@@ -764,6 +774,11 @@ pub open spec fn run_end_ok<OA: OpAccess<Op = Op>>(oa: OA, pc0: usize, halt0: bo
           loops={0: {'invariant': EXEC_INV + ', forall|o: Op| #[trigger] op_gas_cost.spec_cost(o) >= 1', 'invariant_except_break': EXEC_INV_NB, 'ensures': EXEC_LOOP_ENS,
                      'decreases': 'gas_limit.total - gas_spent'}},
           props=('C07',), **dict(EXEC_KW, requires=EXEC_KW['requires'] + ', forall|o: Op| #[trigger] op_gas_cost.spec_cost(o) >= 1')),
+        F('exec_ops', requires='vm_wf(*old(self)), crate::access::access_wf(access)', ensures=re.sub(r'(?<!spec_)op_access', 'ops', EXEC_ENS), props=('C05', 'C07', 'C09')),
+        F('eval_ops', requires='vm_wf(*old(self)), crate::access::access_wf(access)',
+          ensures="""vm_wf(*final(self)),
+            r matches Ok(b) ==> final(self).stack@.len() > 0 && w2b(final(self).stack@.last()) == Some(b),
+            r matches Err(EvalError::InvalidEvaluation(st)) ==> final(self).stack@.len() == 0 || w2b(final(self).stack@.last()) is None""", props=('C05', 'C09')),
         F('eval', requires='vm_wf(*old(self)), crate::access::access_wf(access), op_access.spec_op_access(usize::MAX) is None',
           ensures="""vm_wf(*final(self)),
             r matches Ok(b) ==> final(self).stack@.len() > 0 && w2b(final(self).stack@.last()) == Some(b),
